@@ -18,3 +18,7 @@ pub mod c03_frames;
 pub mod c04_trace;
 #[cfg(kani)]
 pub mod c19_capture;
+#[cfg(kani)]
+pub mod c01_macro;
+#[cfg(kani)]
+pub mod c02_macro;
